@@ -21,15 +21,19 @@ URL = 'http://verif.invalid/data/file.bin'
 SUM_GOOD = hashlib.md5(GOOD).hexdigest()
 
 
-def call(ctx, d, prior, script, md5s):
-    """One real download_file call against a scripted server. Returns (reqs, status, file)."""
+def call(ctx, d, prior, script, md5s, good=None, latin1=False):
+    """One real download_file call against a scripted server. Returns (reqs, status, file).
+    good: the published body (default GOOD; b'' = the published file is EMPTY); latin1: the checksum file names the
+    file with a non-ASCII character and is served as Latin-1 bytes."""
     import responses
     from phylib.io.datasets import download_file
+    GOOD_ = GOOD if good is None else good
+    SUM_ = hashlib.md5(GOOD_).hexdigest()
     p = d / 'file.bin'
     if p.exists():
         p.unlink()
     if prior == 'valid':
-        p.write_bytes(GOOD)
+        p.write_bytes(GOOD_)
     elif prior == 'corrupt':
         p.write_bytes(BAD)
     log = []
@@ -44,7 +48,7 @@ def call(ctx, d, prior, script, md5s):
             raise ConnectionError('script exhausted')
         if r == 'e404':
             return (404, {}, b'')
-        return (200, {}, dict(good=GOOD, corrupt=BAD, trunc=GOOD[:1500], empty=b'')[r])
+        return (200, {}, dict(good=GOOD_, corrupt=BAD, trunc=GOOD[:1500], empty=b'')[r])
 
     def md5_cb(req):
         log.append('md5')
@@ -54,7 +58,10 @@ def call(ctx, d, prior, script, md5s):
             raise MachineryError('more checksum requests than scripted: %r' % log)
         if m == 'missing':
             return (404, {}, b'')
-        return (200, {}, dict(correct=SUM_GOOD, wrong='f' * 32, mangled=SUM_GOOD[:-1])[m] + '  file.bin\n')
+        text = dict(correct=SUM_, wrong='f' * 32, mangled=SUM_[:-1])[m]
+        if latin1:
+            return (200, {}, (text + '  fil\xe9.bin\n').encode('latin-1'))
+        return (200, {}, text + '  file.bin\n')
 
     with responses.RequestsMock(assert_all_requests_are_fired=False) as rs:
         rs.add_callback(responses.GET, URL, callback=data_cb)
@@ -73,7 +80,7 @@ def call(ctx, d, prior, script, md5s):
     call.leak = len(getattr(_ev._EVENT, '_callbacks', []))
     _ev.reset()
     fin = 'absent' if not p.exists() else (
-        'valid' if p.read_bytes() == GOOD else 'corrupt')
+        'valid' if p.read_bytes() == GOOD_ else 'corrupt')
     return log, status, fin
 
 
@@ -100,8 +107,13 @@ def run(ctx):
                 k += 1
                 ctx.evaluations += 1
                 reqs = None
+                # every third case with a checksum file naming a non-ASCII file (Latin-1 bytes); every fifth case whose
+                # script has no empty / truncated body with an EMPTY published file (its valid copy is a zero-length file)
+                variant = dict(latin1=(k % 3 == 0))
+                if k % 5 == 0 and not ({'empty', 'trunc'} & set(case['script'])):
+                    variant['good'] = b''
                 with ctx.guard('replay', case):
-                    reqs, status, fin = call(ctx, d, case['prior'], case['script'], case['md5s'])
+                    reqs, status, fin = call(ctx, d, case['prior'], case['script'], case['md5s'], **variant)
                 if ctx.abort:
                     return
                 ctx.traces += 1
@@ -122,7 +134,8 @@ def run(ctx):
                                   '%s, file %s; specification: %r, %s, %s' % (
                                       case['prior'], case['script'], case['md5s'], reqs, status, fin,
                                       case['reqs'], case['status'], case['file']),
-                                  dict(case=case, observed=dict(reqs=reqs, status=status, file=fin)))
+                                  dict(case=case, observed=dict(reqs=reqs, status=status, file=fin),
+                                       variant=dict(latin1=variant['latin1'], empty_published='good' in variant)))
                 if k % 97 == 1:
                     ctx.sample(case)
             path.unlink()
@@ -166,6 +179,10 @@ def run(ctx):
 
 def replay(ctx, doc):
     c = doc['case'].get('case') or doc['case'].get('record')
+    v = doc['case'].get('variant') or {}
+    kw = dict(latin1=bool(v.get('latin1')))
+    if v.get('empty_published'):
+        kw['good'] = b''
     with tmp_dir(ctx) as d:
-        print('observed:', call(ctx, d, c['prior'], c['script'], c['md5s']))
+        print('observed:', call(ctx, d, c['prior'], c['script'], c['md5s'], **kw))
         print('expected:', c['reqs'], c['status'], c['file'])
